@@ -154,9 +154,23 @@ Qed.
 
 (* ---------- (b) the history property with legacy revision ids ---------- *)
 (* buildRevHistory (scenario 3) + blipRevMessageProperties: [hlvHistory (if any), revID, revTreeHistory...]
-   joined by commas; [lg] is revID :: revTreeHistory *)
-Definition history_legacy (v : svec) (lg : list bytes) : bytes :=
-  join ((match to_history v with [] => [] | h => [h] end) ++ lg) COMMA.
+   joined by commas; [lg] is revID :: revTreeHistory.  Since commit 136d16a of /repo ([repaired] = true) an
+   hlvHistory that ends with ';' (merge versions only) takes the revID directly after the semicolon instead of
+   as a further comma-joined entry; [repaired] = false is the sender before that commit, kept as the subject of
+   wire_legacy_mv_only_refuted (C10_Refuted.v). *)
+Definition ends_with_semi (h : bytes) : bool := last h 0 =? SEMI.
+
+Definition history_legacy_gen (repaired : bool) (v : svec) (lg : list bytes) : bytes :=
+  match to_history v, lg with
+  | [], _ => join lg COMMA
+  | h, [] => h
+  | h, r :: t => if repaired && ends_with_semi h then join ((h ++ r) :: t) COMMA else join (h :: r :: t) COMMA
+  end.
+
+(* THE switch: which sender the correspondence (C10_Corr) and the round-trip theorem are about *)
+Definition legacy_sender_repaired : bool := true.
+Definition history_legacy (v : svec) (lg : list bytes) : bytes := history_legacy_gen legacy_sender_repaired v lg.
+Definition history_legacy_old (v : svec) (lg : list bytes) : bytes := history_legacy_gen false v lg.
 
 Definition check_wire_legacy (v : svec) (lg : list bytes) (rev hist : bytes) (r : option (svec * list bytes)) : bool :=
   bytes_eqb (cv_string v) rev && bytes_eqb (history_legacy v lg) hist &&
@@ -210,13 +224,50 @@ Proof. intros rev [|c r] H; [tauto|reflexivity]. Qed.
 Lemma match_ne : forall (A : Type) (l : bytes) (a b : A), l <> [] -> match l with [] => a | _ :: _ => b end = b.
 Proof. intros A [|c r] a b H; [tauto|reflexivity]. Qed.
 
-(* THE ROUND TRIP WITH LEGACY IDS, for vectors whose history string does not end with the ';' that
-   toHistoryForHLV writes after the merge versions -- i.e. no merge versions, or at least one previous version *)
+Lemma last_in : forall (h : bytes) d, h <> [] -> In (last h d) h.
+Proof.
+  induction h as [|c r IH]; intros d NE; [tauto|]. destruct r as [|c2 r2]; [left; reflexivity|].
+  right. change (last (c :: c2 :: r2) d) with (last (c2 :: r2) d). apply IH. discriminate.
+Qed.
+
+Lemma last_app_ne : forall (a x : bytes) d, x <> [] -> last (a ++ x) d = last x d.
+Proof.
+  induction a as [|c a IH]; intros x d NE; [reflexivity|].
+  cbn [app]. destruct (a ++ x) eqn:E; [apply app_eq_nil in E; tauto|]. rewrite <- E.
+  change (last (c :: a ++ x) d) with (match a ++ x with [] => c | _ => last (a ++ x) d end).
+  rewrite E, <- E. now apply IH.
+Qed.
+
+Lemma ends_nosemi : forall h, Forall (fun c => c <> SEMI) h -> ends_with_semi h = false.
+Proof.
+  intros h F. unfold ends_with_semi. destruct (N.eqb_spec (last h 0) SEMI) as [E|]; [|reflexivity].
+  destruct h as [|c r]; [cbn in E; unfold SEMI in E; discriminate|].
+  rewrite Forall_forall in F. exfalso. apply (F (last (c :: r) 0)); [apply last_in; discriminate | exact E].
+Qed.
+
+Lemma history_legacy_gen_noend : forall rp v lg, ends_with_semi (to_history v) = false ->
+  history_legacy_gen rp v lg = join ((match to_history v with [] => [] | h => [h] end) ++ lg) COMMA.
+Proof.
+  intros rp v lg H. unfold history_legacy_gen. destruct (to_history v) as [|c l]; [reflexivity|].
+  destruct lg as [|r t]; [reflexivity|]. rewrite H, andb_false_r. reflexivity.
+Qed.
+
+Lemma history_legacy_old_eq : forall v lg,
+  history_legacy_old v lg = join ((match to_history v with [] => [] | h => [h] end) ++ lg) COMMA.
+Proof.
+  intros v lg. unfold history_legacy_old, history_legacy_gen. destruct (to_history v) as [|c l]; [reflexivity|].
+  destruct lg as [|r t]; reflexivity.
+Qed.
+
+Lemma join_head_app : forall (a r : bytes) t sep, join ((a ++ r) :: t) sep = a ++ join (r :: t) sep.
+Proof. intros a r [|y t'] sep; cbn [join]; [reflexivity|]. now rewrite <- app_assoc. Qed.
+
+(* THE ROUND TRIP WITH LEGACY IDS (repaired sender), for every sendable vector -- the merge-versions-only
+   vectors included *)
 Theorem wire_legacy_roundtrip : forall v lg, sendable v -> lg <> [] -> (forall x, In x lg -> legacy_ok x) ->
-  (s_mv v = [] \/ s_pv v <> []) ->
   exists v', extract_hlv (wire_join (cv_string v) (history_legacy v lg)) = Some (v', lg) /\ svec_equiv v' (wire_view v).
 Proof.
-  intros v lg [Gc [Gm [Gp [NDm [NDp [Dj NI]]]]]] NL LG Shape.
+  intros v lg [Gc [Gm [Gp [NDm [NDp [Dj NI]]]]]] NL LG.
   set (cvs := version_string (s_src v, s_ver v)).
   destruct (version_string_good _ Gc) as [_ [CN [CC [CS [_ _]]]]]. fold cvs in CN, CC, CS.
   assert (Ecv : cv_string v = cvs).
@@ -258,7 +309,10 @@ Proof.
     assert (Emvs : mvs = []) by (unfold mvs; now rewrite Em). rewrite Emvs in *.
     change (join [cvs] COMMA) with cvs in F0. rewrite Em in AM, AP, F0. cbn [rebuild fold_left add_mvs] in AM, AP.
     assert (EH : history_legacy v lg = join (pvs ++ lg) COMMA).
-    { unfold history_legacy, to_history. rewrite Em. cbn [map join app]. fold pvs.
+    { unfold history_legacy. rewrite history_legacy_gen_noend.
+      2:{ apply ends_nosemi. unfold to_history. rewrite Em. cbn [map join app]. fold pvs.
+          apply join_nosep; [unfold COMMA, SEMI; lia|]. apply entries_nosep; auto. }
+      unfold to_history. rewrite Em. cbn [map join app]. fold pvs.
       destruct (s_pv v) as [|p0 pr] eqn:Ep.
       - unfold pvs. cbn [map join app]. reflexivity.
       - assert (Pn : pvs <> []) by (unfold pvs; discriminate).
@@ -271,13 +325,28 @@ Proof.
     rewrite existsb_semi_false by exact PLsemi.
     rewrite split_app by exact CS. rewrite split_nosep by exact PLsemi.
     rewrite F0. cbn [add_mvs]. rewrite match_ne by exact PLnonempty. rewrite F1, AP. rewrite Em. cbn [rebuild fold_left]. reflexivity.
-  - (* merge versions and at least one previous version:  mv ; pv , legacy ids *)
-    destruct Shape as [Sh|Sh]; [congruence|].
+  - (* merge versions:  mv ; pv , legacy ids   or, without previous versions,  mv ; legacy ids *)
     assert (Mn : mvs <> []) by (unfold mvs; rewrite Em; discriminate).
-    assert (Pn : pvs <> []) by (unfold pvs; destruct (s_pv v); [tauto|discriminate]).
+    assert (TH : to_history v = join mvs COMMA ++ [SEMI] ++ join pvs COMMA).
+    { unfold to_history. fold mvs pvs. now rewrite Em. }
     assert (EH : history_legacy v lg = join mvs COMMA ++ SEMI :: join (pvs ++ lg) COMMA).
-    { unfold history_legacy, to_history. fold mvs pvs. rewrite Em.
-      change (match m0 :: mr with [] => [] | _ :: _ => [SEMI] end) with [SEMI].
+    { assert (Hp : pvs = [] \/ pvs <> []) by (destruct pvs; [left; reflexivity | right; discriminate]).
+      destruct Hp as [Ep|Pn].
+      { (* merge versions only: the history ends with ';' and takes the first legacy id directly *)
+        rewrite Ep in *. cbn [join app] in TH. cbn [app].
+        destruct lg as [|r t]; [tauto|].
+        unfold history_legacy, history_legacy_gen, legacy_sender_repaired. rewrite TH.
+        assert (En : ends_with_semi (join mvs COMMA ++ [SEMI]) = true).
+        { unfold ends_with_semi. rewrite last_last. apply N.eqb_refl. }
+        destruct (join mvs COMMA ++ [SEMI]) as [|c0 r0] eqn:Eh.
+        { apply app_eq_nil in Eh. destruct Eh as [_ Eh]. discriminate. }
+        rewrite En. cbn [andb]. rewrite <- Eh. rewrite join_head_app. now rewrite <- app_assoc. }
+      unfold history_legacy. rewrite history_legacy_gen_noend.
+      2:{ rewrite TH. unfold ends_with_semi. rewrite app_assoc. rewrite last_app_ne.
+          - apply ends_nosemi. apply join_nosep; [unfold COMMA, SEMI; lia|]. apply entries_nosep; auto.
+          - apply join_ne; auto. intros x I. apply in_map_iff in I. destruct I as [e [E I]]. subst x.
+            apply (version_string_good e (Gp e I)). }
+      rewrite TH.
       destruct (join mvs COMMA ++ [SEMI] ++ join pvs COMMA) as [|c0 r0] eqn:Eh.
       { apply app_eq_nil in Eh. destruct Eh as [_ Eh]. discriminate. }
       rewrite <- Eh. rewrite (join_app_ne pvs lg COMMA Pn NL).
